@@ -1,6 +1,7 @@
 (* Case runner and spec checker (T3) for C14. *)
 From WI Require Import Lib.Base Model.Base64.
 Open Scope N_scope.
+Open Scope string_scope.
 
 Definition enc_of_N (n : N) : enc :=
   match n with 0 => RawStd | 1 => RawURL | 2 => Std | _ => URL end.
@@ -8,6 +9,46 @@ Definition all_encs := [RawStd; RawURL; Std; URL].
 
 Definition obs_opt (o : option bytes) : arg :=
   match o with None => AL [AZ 0] | Some b => AL [AZ 1; AB b] end.
+
+
+(* ---- ops that use the implementation the way its callers do (buffers, repeated calls) ----
+   entry = (text lib aux): lib = the four standard decoders' answers for the text, aux = the
+   answers of the code behind the decoder that is not C14's business (asn1.Unmarshal,
+   json.Unmarshal, ASN1File), recorded by the harness on the STANDARD decoder's bytes.
+   fn: 0 WhichBase64, 1 DecodeAnyBase64, 2 IsBase64ASN1, 3 IsJWT,
+       4 IsBase64ASN1 then Base64ASN1File on the same buffer. *)
+Definition entry_text (e : arg) : bytes := arg_bytes (arg_nth 0 e).
+Definition entry_lib (e : arg) : list arg := arg_list (arg_nth 1 e).
+Definition entry_aux (e : arg) : arg := arg_nth 2 e.
+
+Definition enc_index (o : option enc) : Z :=
+  match o with Some RawStd => 0 | Some RawURL => 1 | Some Std => 2 | Some URL => 3 | None => 4 end%Z.
+
+Definition call_C14 (fn : N) (text : bytes) (aux : arg) : arg :=
+  match fn with
+  | 0 => AL [AZ 0; AZ (enc_index (which_base64 text))]
+  | 1 => obs_result AB (decode_any text)
+  | 2 => match decode_any text with
+         | Ok _ => AL [AZ 0; ok_arg (arg_bool aux)]
+         | Err _ => AL [AZ 0; AZ 0]
+         | Panic _ => AL [AZ 2]
+         end
+  | 3 => (* jwt.go:22 ParseJWT: three parts, each decoded; header and payload JSON objects *)
+         let parts := split_on 46 text in
+         if negb (Nat.eqb (length parts) 3) then AL [AZ 0; AZ 0]
+         else if existsb (fun p => is_panic (decode_any p)) parts then AL [AZ 2]
+         else AL [AZ 0; ok_arg (forallb (fun p => is_ok (decode_any p)) parts
+                                  && arg_bool (arg_nth 2 (arg_nth 0 aux))
+                                  && arg_bool (arg_nth 2 (arg_nth 1 aux)))]
+  | _ => match decode_any text with
+         | Ok _ => AL [AZ 0; AL [ok_arg (arg_bool (arg_nth 0 aux)); arg_nth 1 aux]]
+         | Err _ => AL [AZ 0; AL [AZ 0; AL [AZ 1]]]
+         | Panic _ => AL [AZ 2]
+         end
+  end.
+Definition call_entry (fn : N) (e : arg) : arg := call_C14 fn (entry_text e) (entry_aux e).
+
+Definition step_of (s : arg) : nat * bytes := (arg_nat (arg_nth 0 s), entry_text (arg_nth 1 s)).
 
 Definition run_C14 (op : bytes) (input : arg) : arg :=
   if bytes_eqb op (bs "any") then
@@ -20,12 +61,152 @@ Definition run_C14 (op : bytes) (input : arg) : arg :=
     let crlf := arg_bool (arg_nth 2 input) in
     let data := arg_bytes (arg_nth 3 input) in
     obs_result AB (decode_any (wrap w crlf (encode e data)))
+  else if bytes_eqb op (bs "twice") then
+    (* (fn mode scribble pre post entry) -> (r1 buf rfresh buf r2 buf r1late) *)
+    let fn := arg_N (arg_nth 0 input) in
+    let pre := arg_bytes (arg_nth 3 input) in
+    let post := arg_bytes (arg_nth 4 input) in
+    let e := arg_nth 5 input in
+    let backing := pre ++ entry_text e ++ post in
+    let r := call_C14 fn (window (length pre) (length (entry_text e)) backing) (entry_aux e) in
+    AL [r; AB backing; r; AB backing; r; AB backing; r]
+  else if bytes_eqb op (bs "reuse") then
+    (* (fn mode scribble backing0 ((off entry)...)) -> ((r buf rfresh rlate)...) *)
+    let fn := arg_N (arg_nth 0 input) in
+    let steps := arg_list (arg_nth 4 input) in
+    AL (map (fun sw => match sw with (s, (w, b)) =>
+               let r := call_C14 fn w (entry_aux (arg_nth 1 s)) in AL [r; AB b; r; r] end)
+            (combine steps (reuse_windows (arg_bytes (arg_nth 3 input)) (map step_of steps))))
+  else if bytes_eqb op (bs "conc") then
+    (* (fn shape ((entryA entryB)...)) -> ((rA rB stable bufferB)...) *)
+    let fn := arg_N (arg_nth 0 input) in
+    AL (map (fun p => AL [call_entry fn (arg_nth 0 p); call_entry fn (arg_nth 1 p); AZ 1;
+                          AB (entry_text (arg_nth 1 p))])
+            (arg_list (arg_nth 2 input)))
   else AL [].
 
 (* The property, evaluated on what the implementation printed, against the four
    standard decoders' own answers (recorded by the harness from encoding/base64). *)
 Definition lib_accepts (lib : list arg) : list bytes :=
   flat_map (fun o => match o with AL [AZ 1%Z; AB b] => [b] | _ => [] end) lib.
+
+
+(* ---- the property for one call, judged from the standard decoders' recorded answers ----
+   (independent of the model: no which_base64 / decode_any / std_decode here) *)
+Definition first_acc (lib : list arg) : option bytes :=
+  match lib_accepts lib with [] => None | b :: _ => Some b end.
+
+(* DecodeAnyBase64's observation against the library's answers *)
+Definition judge_decode (lib : list arg) (r : arg) : option string :=
+  let acc := lib_accepts lib in
+  match r with
+  | AL [AZ 2%Z] => Some "failure of the program (panic)"
+  | AL [AZ 1%Z] => match acc with [] => None | _ => Some "valid base64 rejected" end
+  | AL [AZ 0%Z; AB b] =>
+      match acc with
+      | [] => Some "invalid base64 accepted"
+      | _ => if forallb (bytes_eqb b) acc then None else Some "decoded bytes differ from the standard decoder"
+      end
+  | _ => Some "malformed observation"
+  end.
+
+(* a sniffer's boolean against what it has to be *)
+Definition judge_bool (want : bool) (r : arg) : option string :=
+  match r with
+  | AL [AZ 2%Z] => Some "failure of the program (panic)"
+  | AL [AZ 0%Z; AZ v] =>
+      if Bool.eqb (negb (Z.eqb v 0)) want then None
+      else if want then Some "valid base64 text not recognised by the sniffer"
+      else Some "sniffer accepts text that is not valid base64 of the expected content"
+  | _ => Some "malformed observation"
+  end.
+
+Definition judge_call (fn : N) (e : arg) (r : arg) : option string :=
+  let lib := entry_lib e in
+  let aux := entry_aux e in
+  match fn with
+  | 0 => (* WhichBase64 is a pre-filter: it must not send valid text to a decoder that rejects it *)
+      match r with
+      | AL [AZ 2%Z] => Some "failure of the program (panic)"
+      | AL [AZ 0%Z; AZ k] =>
+          match lib_accepts lib with
+          | [] => None
+          | _ => match lib_accepts [nth (Z.to_nat k) lib (AL [])] with
+                 | [] => Some "valid base64: the selected encoding is none / one whose decoder rejects the text"
+                 | _ => None
+                 end
+          end
+      | _ => Some "malformed observation"
+      end
+  | 1 => judge_decode lib r
+  | 2 => judge_bool (match lib_accepts lib with [] => false | _ => arg_bool aux end) r
+  | 3 =>
+      (* aux = ((part lib jsonobj)...) ; the parts joined by '.' must be the text *)
+      let parts := arg_list aux in
+      if negb (bytes_eqb (join [46] (map (fun p => arg_bytes (arg_nth 0 p)) parts)) (entry_text e))
+         || existsb (fun p => existsb (N.eqb 46) (arg_bytes (arg_nth 0 p))) parts
+      then Some "malformed case: recorded parts are not the text split at '.'"
+      else
+        let dec_ok := forallb (fun p => match lib_accepts (arg_list (arg_nth 1 p)) with [] => false | _ => true end) parts in
+        judge_bool (Nat.eqb (length parts) 3 && dec_ok
+                    && arg_bool (arg_nth 2 (nth 0 parts (AL []))) && arg_bool (arg_nth 2 (nth 1 parts (AL [])))) r
+  | _ =>
+      match r with
+      | AL [AZ 2%Z] => Some "failure of the program (panic)"
+      | AL [AZ 0%Z; AL [s; p]] =>
+          match lib_accepts lib with
+          | [] => if arg_eqb s (AZ 0) && arg_eqb p (AL [AZ 1]) then None
+                  else Some "invalid base64 sniffed or parsed as base64 ASN.1"
+          | _ => if negb (arg_eqb s (ok_arg (arg_bool (arg_nth 0 aux))))
+                 then Some "sniffer's answer differs from the answer for the standard decoder's bytes"
+                 else if negb (arg_eqb p (arg_nth 1 aux))
+                 then Some "parser after sniffer on the same buffer: result differs from parsing the standard decoder's bytes"
+                 else None
+          end
+      | _ => Some "malformed observation"
+      end
+  end.
+
+Definition first_some (l : list (option string)) : option string :=
+  fold_right (fun o acc => match o with Some s => Some s | None => acc end) None l.
+Definition verdict (o : option string) : arg :=
+  match o with None => AL [] | Some s => AB (bytes_of_string s) end.
+Definition same_buf (what : string) (want : bytes) (got : arg) : option string :=
+  match got with
+  | AB b => if bytes_eqb b want then None else Some what
+  | _ => Some "malformed observation"
+  end.
+Definition same_res (what : string) (a b : arg) : option string :=
+  if arg_eqb a b then None else Some what.
+
+(* reuse: the checker follows the buffer itself (expected contents), step by step *)
+Fixpoint judge_reuse (fn : N) (b : bytes) (steps obs : list arg) : option string :=
+  match steps, obs with
+  | [], [] => None
+  | s :: steps', AL [r; buf; rf; rl] :: obs' =>
+      let off := arg_nat (arg_nth 0 s) in
+      let e := arg_nth 1 s in
+      let b' := firstn off b ++ entry_text e ++ skipn (off + length (entry_text e)) b in
+      first_some [
+        same_buf "the call changed bytes of the caller's buffer (inside or outside the text)" b' buf;
+        match judge_call fn e r with Some m => Some (String.append "buffer refilled in place: " m) | None => None end;
+        judge_call fn e rf;
+        same_res "same text, different answers in the refilled buffer and in a fresh copy" r rf;
+        same_res "the bytes returned by this call were changed by a later call" r rl;
+        judge_reuse fn b' steps' obs']
+  | _, _ => Some "malformed observation"
+  end.
+
+Definition judge_conc (fn : N) (p o : arg) : option string :=
+  match o with
+  | AL [ra; rb; st; buf] =>
+      first_some [
+        match judge_call fn (arg_nth 0 p) ra with Some m => Some (String.append "concurrent callers: " m) | None => None end;
+        match judge_call fn (arg_nth 1 p) rb with Some m => Some (String.append "concurrent callers: " m) | None => None end;
+        same_res "concurrent callers: the answer for one text changed between iterations" st (AZ 1);
+        same_buf "concurrent callers: the call changed the caller's buffer" (entry_text (arg_nth 1 p)) buf]
+  | _ => Some "malformed observation"
+  end.
 
 Definition check_C14 (op : bytes) (input impl : arg) : arg :=
   if bytes_eqb op (bs "any") then
@@ -43,4 +224,31 @@ Definition check_C14 (op : bytes) (input impl : arg) : arg :=
   else if bytes_eqb op (bs "rt") then
     let data := arg_bytes (arg_nth 3 input) in
     if arg_eqb impl (AL [AZ 0; AB data]) then AL [] else AS "round trip failed"
+  else if bytes_eqb op (bs "twice") then
+    let fn := arg_N (arg_nth 0 input) in
+    let e := arg_nth 5 input in
+    let backing := arg_bytes (arg_nth 3 input) ++ entry_text e ++ arg_bytes (arg_nth 4 input) in
+    match impl with
+    | AL [r1; b1; rf; b2; r2; b3; rl] =>
+        verdict (first_some [
+          judge_call fn e r1;
+          same_buf "the call changed the caller's buffer (text or spare bytes around it)" backing b1;
+          judge_call fn e rf;
+          same_res "same text, different answers in two buffers" r1 rf;
+          same_buf "writing to the returned bytes changed the caller's buffer" backing b2;
+          match judge_call fn e r2 with Some m => Some (String.append "second call on the same buffer: " m) | None => None end;
+          same_res "second call on the same buffer: the answer differs from the first" r1 r2;
+          same_buf "the second call changed the caller's buffer" backing b3;
+          same_res "the bytes returned by the first call were changed by a later call" r1 rl])
+    | _ => AS "malformed observation"
+    end
+  else if bytes_eqb op (bs "reuse") then
+    verdict (judge_reuse (arg_N (arg_nth 0 input)) (arg_bytes (arg_nth 3 input))
+                         (arg_list (arg_nth 4 input)) (arg_list impl))
+  else if bytes_eqb op (bs "conc") then
+    let fn := arg_N (arg_nth 0 input) in
+    let ps := arg_list (arg_nth 2 input) in
+    let os := arg_list impl in
+    if negb (Nat.eqb (length ps) (length os)) then AS "malformed observation"
+    else verdict (first_some (map (fun po => judge_conc fn (fst po) (snd po)) (combine ps os)))
   else AL [].
